@@ -2,7 +2,7 @@ SPECIFICATION Spec
 CONSTANTS
   IdSeqs <- MCIdSeqs
   Names = {"tau", "my_p", "sources"}
-  Shapes = {"scalar", "len1", "len2"}
+  Shapes = {"scalar", "len1", "len2", "len12"}
   Paths = {"df", "pt", "csv", "json"}
   MaxParams = 2
   ScalarOK = FALSE
